@@ -16,11 +16,14 @@ type State struct {
 	alloc   string
 	ghost   map[string]string // ghost scalar state (e.g. lock held)
 	tainted map[string]bool
+	spare   []spareRegion // regions written by in-place append (spare capacity), exempt from the frame
 }
+
+type spareRegion struct{ heap, ref, lo string }
 
 func (s *State) clone() *State {
 	n := &State{vars: make(map[*types.Var]Term, len(s.vars)), heaps: make(map[string]string, len(s.heaps)),
-		pc: append([]string(nil), s.pc...), alloc: s.alloc, ghost: map[string]string{}, tainted: map[string]bool{}}
+		pc: append([]string(nil), s.pc...), alloc: s.alloc, ghost: map[string]string{}, tainted: map[string]bool{}, spare: append([]spareRegion(nil), s.spare...)}
 	for k, v := range s.vars {
 		n.vars[k] = v
 	}
@@ -211,6 +214,9 @@ func (u *Unit) merge(base *State, states []*State) *State {
 		for h := range s.tainted {
 			out.tainted[h] = true
 		}
+		for _, sp := range s.spare[min(len(base.spare), len(s.spare)):] {
+			out.spare = append(out.spare, sp)
+		}
 	}
 	return out
 }
@@ -237,6 +243,15 @@ func (u *Unit) heapCur(st *State, h string) string {
 }
 
 func (u *Unit) emit(st *State, group, kind, detail string, pos token.Pos, goal string) *Obligation {
+	if group == "safety" && u.ct != nil && len(u.ct.Panics) > 0 && u.entry != nil && !strings.HasPrefix(kind, "panic[") {
+		// an implicit panic is allowed where the function is declared to panic
+		env := &SpecEnv{u: u, st: st, old: u.entry, names: map[string]Term{}, cs: u.cs, pkg: u.pkg.Types, own: true, scopePos: u.bodyPos}
+		var alts []string
+		for _, p := range u.ct.Panics {
+			alts = append(alts, env.evalBool(p.Expr))
+		}
+		goal = or(goal, or(alts...))
+	}
 	return u.emitExpect(st, group, kind, detail, pos, goal, "unsat")
 }
 
